@@ -62,6 +62,7 @@ func (k *Case) loopIdle() bool {
 
 // Case is one controlled execution.
 type Case struct {
+	cbHold       bool // held runs: FidDestroy callbacks stay parked
 	C            *Ctl
 	Cfg          Cfg
 	ch           *ConnH
@@ -145,6 +146,13 @@ func (k *Case) logStep(act string, args ...any) {
 
 func (k *Case) msgFor(kind string, tag, fid, newfid, oldtag int) *wire.Msg {
 	m := &wire.Msg{Tag: uint16(tag), Fid: uint32(fid)}
+	wtag := func(t int) uint16 {
+		if k.Cfg.NoTag != 0 && t == k.Cfg.NoTag {
+			return wire.NOTAG // the model tag that stands for 0xFFFF, also on requests other than Tversion
+		}
+		return uint16(t)
+	}
+	m.Tag = wtag(tag)
 	switch kind {
 	case "Attach":
 		m.Type = wire.Tattach
@@ -160,7 +168,7 @@ func (k *Case) msgFor(kind string, tag, fid, newfid, oldtag int) *wire.Msg {
 		m.Wname = []string{"a", "b"}
 	case "Flush":
 		m.Type = wire.Tflush
-		m.Oldtag = uint16(oldtag)
+		m.Oldtag = wtag(oldtag)
 	case "Version": // a Tversion in mid-session: same msize and dialect again
 		m.Type = wire.Tversion
 		m.Tag = wire.NOTAG
@@ -322,6 +330,7 @@ func (k *Case) Do(step []any) error {
 		}
 		k.nwire++
 	case "ClientClose":
+		markProgress("closed")
 		switch k.CloseBy {
 		case "oversize": // the server drops the connection itself: a header announcing more than msize
 			c.SendRaw(k.ch, []byte{0xff, 0xff, 0xff, 0x7f, wire.Tstat}, nil)
@@ -824,6 +833,18 @@ func (o *Out) Skip(id int) bool { return id < o.Start }
 func (o *Out) Begin(id int) {
 	if o.prog != "" {
 		_ = os.WriteFile(o.prog, []byte(fmt.Sprint(id)), 0o644)
+	}
+	progPath, progID = o.prog, id
+}
+
+// progress of the case in execution, for the driver that restarts the engine after a crash of the server under test
+var progPath string
+var progID int
+
+// markProgress adds a word to the progress file ("closed": the client of the case has disconnected).
+func markProgress(word string) {
+	if progPath != "" {
+		_ = os.WriteFile(progPath, []byte(fmt.Sprintf("%d %s", progID, word)), 0o644)
 	}
 }
 
